@@ -34,6 +34,7 @@ class RepoWorld(World):
         self.eq_hooks = []
         self.setattr_hooks, self.delattr_hooks = [], []
         self.len_hooks, self.int_hooks, self.iter_hooks = [], [], []
+        self.str_hooks = []
         self.contains_hooks = []
         self.binop_hooks, self.compare_hooks, self.unary_hooks, self.with_call_hooks, self.ref_getattr_hooks = [], [], [], [], []
         self.path_getters = {}
@@ -167,6 +168,13 @@ class RepoWorld(World):
     def iter_hook(self, ex, it):
         for h in self.iter_hooks:
             r = h(ex, it)
+            if r is not None:
+                return r
+        return None
+
+    def str_hook(self, ex, v):
+        for h in self.str_hooks:
+            r = h(ex, v)
             if r is not None:
                 return r
         return None
